@@ -449,7 +449,7 @@ def run(ctx: Ctx):
     for p in SETTER_PROPS:
         traces += alias_histories(p, rng, 3 if q else 150)
     traces += scalar_traces(rng)
-    for _ in range(170 if q else 5000):
+    for _ in range(150 if q else 5000):
         traces.append(random_walk(rng, rng.randint(6, 14)))
     ctx.notes["histories"] = len(traces)
     lines = judge_traces(ctx, traces)
